@@ -239,6 +239,47 @@ def plan(ctx, geos):
     if not quick:       # torrents of different geometry in one session
         add("multi", 16384, [], "multi")
         scs[-1]["multi"] = {"roles": ["full", "empty", "leech"], "layouts": ["multi", "single", "odd"], "snaps": 100, "gapUs": 3000, "restarts": 3, "rwiMs": 2, "lives": 1, "delayUs": 2000}
+    # R: RE-ADD OVER AN UNLOADABLE RECORD - a life leaves a persisted bitfield; the record becomes unloadable while the client is
+    #    down (unknown version after a downgrade / damaged info: the session skips it and KEEPS the bucket); data files are
+    #    deleted (all / some / none); the torrent is added again under the SAME ID and that life is killed right after the add
+    #    (added stopped), at every file of its first allocation, or after it settled; then a restart. The database found after the
+    #    re-add life must not claim content that is not in the files (C05.db), nor may the next start trust it (C05.ahead).
+    for lay, unit in ([("multi", 16384)] if quick else [("multi", 16384), ("single", 16384), ("padmid", 16384), ("odd", 5000)]):
+        g = geos[(lay, unit)]
+        nf = g["nf"]
+        firsts = [(K("complete", 0, GATE_DELAY), RWI)] if quick else [(K("complete", 0, GATE_DELAY), RWI), (K("persisted", min(1, g["np"] - 1)), RWI), (K("close", g["np"] - 1, -1), NEVER)]
+        for fk, frwi in firsts:
+            for dmg in (["version"] if quick else ["version", "info"]):
+                dels = [[-1], [min(1, nf - 1)]] if nf > 1 else [[-1]]
+                if not quick:
+                    dels.append(None)
+                for dele in dels:
+                    kills = [(K("added", 0, 0), True), (K("open-exit", nf - 1), False), (K("settled", 0, 4 * RWI * 1000), False)]
+                    if not quick:
+                        kills += [(K("open-exit", j), False) for j in range(nf - 1)] + [(K("added", 0, GATE_DELAY), False)]
+                    for kill, stopped in kills:
+                        rd = life("readd", kill, rwi=RWI, dele=dele)
+                        rd["damage"], rd["stopped"] = dmg, stopped
+                        add(lay, unit, [life("leech", fk, rwi=frwi), rd, settle()], "readd")
+    # O: DATA FILES OWNED BY ANOTHER USER - the client runs as an ordinary user (uid 65534); copies of the data files (stale / good)
+    #    that belong to root and are writable for everybody are already there (shared download directory). Whatever the storage
+    #    does about them (refuse: allocation error; or open), a handle it hands out must be O_SYNC (C05.osync: the open event
+    #    carries the flags of the real descriptor; a returned write through another handle is not durable, a persisted bit for it
+    #    is ahead of the disk). Needs root (to create files of another owner and to drop privileges); skipped otherwise.
+    if os.geteuid() == 0:
+        for lay, unit in ([("multi", 16384)] if quick else [("multi", 16384), ("single", 16384), ("span3", 16384)]):
+            g = geos[(lay, unit)]
+            pres = [("stale", -1)] + ([("stale", g["nf"] - 1)] if g["nf"] > 1 else []) + ([] if quick else [("good", -1)])
+            for kind, f in pres:
+                kills = [(K("persisted", 0), RWI), (K("complete", 0, GATE_DELAY), RWI)]
+                if not quick:
+                    kills += [(K("stop", 0, -1), NEVER), (K("close", g["np"] - 1, -1), NEVER), (K("w-exit", 0, GATE_DELAY), RWI)]
+                if kind == "good":
+                    kills = [(K("settled", 0, GATE_DELAY), RWI)]
+                for kill, rwi in kills:
+                    add(lay, unit, [life("leech", kill, rwi=rwi), settle()], "owner")
+                    scs[-1]["pre"] = [{"f": f, "kind": kind, "foreign": True}]
+                    scs[-1]["uid"] = 65534
     # D: default storage provider, kills at jittered times while the periodic writer commits every 2 ms
     njit = ctx.pick(10, 150)
     for i in range(njit):
@@ -267,12 +308,16 @@ def hist_class(sc):
     if sc.get("move"):
         m = sc["move"]
         return "move:have=%s;cut=%s%s;after=%s" % (m["have"], m["cut"], ("@f%d.%d" % (m["f"], m["permil"])) if m["cut"] in ("abort", "hold", "short") else "", m["after"])
+    if sc.get("uid"):
+        parts.append("as-user;foreign-files")
     if sc.get("pre"):
         parts.append("pre=" + "+".join(sorted({p["kind"] for p in sc["pre"]})) + ("" if sc["pre"][0]["f"] == -1 else "(some)"))
     for r in sc["runs"]:
         d = r.get("del")
         if d:
             parts.append("del=all" if d == [-1] else "del=some")
+        if r.get("damage"):
+            parts.append("damage=" + r["damage"])
         if r.get("fault"):
             parts.append("fault=p%d.s%d:%s%s" % (r["fault"]["p"], r["fault"]["s"], r["fault"]["mode"], "" if r["fault"]["once"] else "*"))
         parts.append("%s:%s" % (r["mode"], r["kill"]["kind"]))
@@ -305,6 +350,9 @@ ASIS = [
                                                   "the bit is set and persisted without the content"),
     ("ResumeMulti", "MC_ResumeMulti_bypos.cfg", "Inv", "shared periodic writer that pairs bitfields with records by position over two passes of the torrent map: "
                                                         "a record receives the bitfield of another torrent"),
+    ("MC_ResumeEnv", "MC_ResumeEnv_keep.cfg", "Inv", "re-add over an unloadable record that does not store keys it has no value for: the bitfield of the old "
+                                                     "record survives in the new one and claims files that the re-added torrent has just created"),
+    ("MC_ResumeEnv", "MC_ResumeEnv_nosyncfb.cfg", "Inv", "fallback open of a data file owned by another user that drops O_SYNC together with O_NOATIME"),
     ("MC_Resume", "MC_Resume_patched.cfg", "InvTrust", "order after the minimal repair (bitfield dropped in handleAllocationDone): the window between the creation "
                                                        "of a missing file and that update remains"),
     ("MC_Resume", "MC_Resume_nosync.cfg", "Inv", "data files not opened O_SYNC: a persisted bit can be ahead of durable data"),
@@ -322,6 +370,11 @@ def run(ctx):
                        "while the target is killed) followed by a restart; sessions with 2-3 torrents of equal geometry (complete / empty / leeching / "
                        "partial) whose database is copied in one read transaction at 40-150 ticks of a 2 ms periodic writer, every copy judged per "
                        "torrent, restarts from the state after the kill and from the distinct copies; "
+                       "re-add over an unloadable record: a life leaves a persisted bitfield, the record is made unloadable (unknown version / "
+                       "cut info) while the client is down, files are deleted (all / some / none), the torrent is added again under the same ID "
+                       "and that life is killed after the add / at every file of its allocation / settled, then a restart; "
+                       "data files owned by another user (root-owned, world-writable stale / good copies) under a client running as uid 65534, "
+                       "kills at persisted / complete / stop / close, then a restart; "
                        "layouts include content with all-zero data pieces over pre-existing stale / partial / truncated copies of the data files; "
                        "non-trivial = a kill at a storage/allocation/verification gate, a deletion, planted files or >= 3 lives; distinct = layout x history class x kill ordinals")
     ctx.assumptions += ["power loss is not simulated: SIGKILL keeps the page cache, so the O_SYNC flag of every data-file descriptor (/proc/self/fdinfo) is the "
@@ -346,11 +399,14 @@ def run(ctx):
         try:
             ctx.tlc_mc("MC_Resume", "MC_Resume.cfg", timeout=900, workers=4)            # 3 pieces x 2 files, write faults at every section
             ctx.tlc_mc("ResumeMulti", "MC_ResumeMulti.cfg", timeout=900, workers=4)       # 3 torrents x 2 pieces, one shared writer
+            ctx.tlc_mc("MC_ResumeEnv", "MC_ResumeEnv.cfg", timeout=900, workers=4)        # + record damage / re-add, files of another owner (refused)
+            if not ctx.quick():
+                ctx.tlc_mc("MC_ResumeEnv", "MC_ResumeEnv_sync.cfg", timeout=900, workers=4)   # foreign files opened, O_SYNC kept
             if not ctx.quick():
                 ctx.tlc_mc("MC_Resume", "MC_Resume_span3.cfg", timeout=900, workers=4)    # a piece over three files (middle section)
                 ctx.tlc_mc("MC_Resume", "MC_Resume_big.cfg", timeout=2400, workers=8)
             leads = {}
-            for module, cfg, inv, what in (ASIS[:3] if ctx.quick() else ASIS):
+            for module, cfg, inv, what in (ASIS[:5] if ctx.quick() else ASIS):
                 ok, out = ctx.tlc_mc(module, cfg, timeout=900, workers=2, expect_ok=False)
                 viol = re.findall(r"Invariant (\S+) is violated", out)
                 if not ok and not viol:
@@ -377,6 +433,14 @@ def run(ctx):
 
 def code_level(ctx, scs=None):
     drv = ctx.build_go("c05")
+    if os.geteuid() == 0:       # family O runs the client as an ordinary user: the scratch path must be traversable for it
+        d = ctx.scratch
+        os.chmod(d, 0o711)
+        for sub in ("bin", "work"):
+            os.makedirs(os.path.join(d, sub), exist_ok=True)
+            os.chmod(os.path.join(d, sub), 0o711)
+    else:
+        ctx.assumptions.append("family O (data files owned by another user) skipped: the check does not run as root")
     if scs is None:
         geos = {}
         for lay in ["multi", "single", "empties", "padmid", "padalign", "odd", "zspan", "zrun", "zend", "zfile", "span3", "spanpad"]:
@@ -407,6 +471,7 @@ def code_level(ctx, scs=None):
         index[-1][2].append(e)
     lives = kills_gate = 0
     nfault_seen, move_answers = [0], {}
+    owner_out = {"refused": 0, "opened": 0}
     counted = set()
     for sid, _, es in index:
         sc = by_id[sid]
@@ -416,7 +481,7 @@ def code_level(ctx, scs=None):
         fam = sc.get("fam")
         if sid not in counted:      # (a session with several torrents yields one trace per torrent)
             counted.add(sid)
-            ctx.count_case((sc["layout"], sc["unit"], hc, ords), gate or "del=" in hc or "pre=" in hc or len(sc["runs"]) >= 3 or fam in ("fault", "move", "multi"))
+            ctx.count_case((sc["layout"], sc["unit"], hc, ords), gate or "del=" in hc or "pre=" in hc or len(sc["runs"]) >= 3 or fam in ("fault", "move", "multi", "readd", "owner"))
         if fam == "fault":
             ctx.oblig("C05.db(crash after a storage write fault)", sum(1 for e in es if e["ev"] == "crash"))
             ctx.oblig("C05.ahead(settled after a storage write fault)", sum(1 for i, e in enumerate(es) if e["ev"] == "settled" and any(x["ev"] == "wend" and not x["ok"] for x in es[:i])))
@@ -427,6 +492,13 @@ def code_level(ctx, scs=None):
             for e in es:
                 if e["ev"] == "moveres":
                     move_answers[str(e["status"])] = move_answers.get(str(e["status"]), 0) + 1
+        if fam == "readd":
+            ctx.oblig("C05.db(crash of a life that re-added the torrent over an unloadable record)", sum(1 for i, e in enumerate(es) if e["ev"] == "crash" and any(x["ev"] == "damage" for x in es[:i])))
+            ctx.oblig("C05.ahead(settled after a re-add over an unloadable record)", sum(1 for i, e in enumerate(es) if e["ev"] == "settled" and any(x["ev"] == "damage" for x in es[:i])))
+        if fam == "owner":
+            ctx.oblig("C05.osync(data file of another owner: refused, or opened O_SYNC)", sum(1 for e in es if e["ev"] in ("allocfail", "open")))
+            owner_out["refused"] += sum(1 for e in es if e["ev"] == "allocfail")
+            owner_out["opened"] += sum(1 for e in es if e["ev"] == "open" and e["existed"])
         if fam == "multi":
             ctx.oblig("C05.db(database copy at a tick, several torrents)", sum(1 for e in es if e["ev"] == "dbsnap"))
             ctx.oblig("C05.ahead(restart from a database copy)", sum(1 for i, e in enumerate(es) if e["ev"] == "settled" and any(x["ev"] == "rewind" for x in es[:i])))
@@ -441,13 +513,16 @@ def code_level(ctx, scs=None):
     ctx.extra["process_lives"] = lives
     ctx.extra["write_faults_injected"] = nfault_seen[0]
     ctx.extra["move_request_answers"] = move_answers
+    ctx.extra["foreign_owned_files"] = owner_out
     fams = {}
     for sc in scs:
         fams[sc.get("fam", "?")] = fams.get(sc.get("fam", "?"), 0) + 1
     ctx.extra["scenarios_per_family"] = fams
     if not getattr(ctx, "replay", None):
         for fam, tag in (("fault", "C05.db(crash after a storage write fault)"), ("move", "C05.db(crash of the target of a move)"),
-                         ("multi", "C05.db(database copy at a tick, several torrents)")):
+                         ("multi", "C05.db(database copy at a tick, several torrents)"),
+                         ("readd", "C05.db(crash of a life that re-added the torrent over an unloadable record)"),
+                         ("owner", "C05.osync(data file of another owner: refused, or opened O_SYNC)")):
             if fams.get(fam) and not ctx.obligation_counts.get(tag):
                 raise vlib.MachineryError("family %s planned but obligation %s was never evaluated" % (fam, tag))
         if fams.get("fault") and nfault_seen[0] < 0.8 * fams["fault"]:
